@@ -488,6 +488,9 @@ fn validate_map_field(field: &Field, _entry: &Field) -> Result<()> {
     if entry_fields.len() != 2 {
         fail!("Invalid child data type for map, expected struct with 2 fields");
     }
+    for entry_field in entry_fields {
+        validate_field(entry_field)?;
+    }
     Ok(())
 }
 
